@@ -1,7 +1,7 @@
 use std::iter::once;
 
 use crate::bound::{Bounds, WhereClauseBuilder};
-use crate::syn_utils::{expand_self, parenthesize_fragments, self_type};
+use crate::syn_utils::{expand_self, parenthesize_fragments, self_type, ParenthesizeFragments};
 use proc_macro2::{Span, TokenStream, TokenTree};
 use quote::{quote, quote_spanned, ToTokens};
 use structmeta::{Flag, ToTokens};
@@ -986,7 +986,12 @@ impl HelperAttributeForCompareOp {
             Ok(Self {
                 ignore: args.ignore,
                 reverse: args.reverse,
-                by: args.by.map(|x| x.value),
+                by: args.by.map(|x| {
+                    // `macro_rules!` fragments inside the expression keep their grouping.
+                    let mut by = x.value;
+                    syn::visit_mut::VisitMut::visit_expr_mut(&mut ParenthesizeFragments, &mut by);
+                    by
+                }),
                 key: args
                     .key
                     .map(|x| Template::new_checked(x.value))
